@@ -215,4 +215,22 @@ theorem generators_identity (q : List (Rat × Rat) → Rat × Rat → Nat) (gens
   | nil => rfl
   | cons a as ih => simp only [List.map_cons, List.flatten_cons, ih, List.singleton_append]
 
+/-- hence the list of (gx, rate) — and with it every total — is unchanged -/
+theorem generators_totals_identity (q : List (Rat × Rat) → Rat × Rat → Nat) (gens : List Gen) (g : Geo)
+    (sgridVol : Dict Rat) (tgrid : List (Str × Rat)) (flags : List Bool) (top bottom : List Str)
+    (m cm : Dict Str) (rename preserve : Bool)
+    (hset : genIdentitySetting g tgrid flags m cm = true)
+    (hgens : ∀ sg ∈ gens, genPlaced g sgridVol tgrid top bottom sg = true) :
+    ∃ outs, transferGenerators q gens g g sgridVol tgrid flags top bottom m cm rename preserve = .ok outs ∧
+      outs.map (fun o => (o.gx, o.rate)) = gens.map (fun sg => (sg.gx, sg.rate)) := by
+  refine ⟨_, generators_identity q gens g sgridVol tgrid flags top bottom m cm rename preserve hset hgens, ?_⟩
+  rw [List.map_map]
+  clear hgens
+  generalize 0 = n
+  induction gens generalizing n with
+  | nil => rfl
+  | cons a as ih =>
+    simp only [enumFrom, List.map_cons, Function.comp_apply, List.cons.injEq, true_and]
+    exact ih (n + 1)
+
 end Proofs.Mapping
